@@ -303,19 +303,27 @@ fn q_apos(s: &[char], i: usize) -> bool {
 fn q_hex(s: &[char], i: usize) -> bool {
     i + 2 < s.len() && s[i] == '0' && matches!(s[i + 1], 'x' | 'X') && s[i + 2].is_ascii_hexdigit()
 }
+/// look-behind (C18LexAlnum.start_ok): the character before the pattern is not a word character — the lexer never
+/// starts a token at an ASCII letter or digit that follows one (C18LexAlnum.alnum_lex_binv)
+fn start_ok(s: &[char], i: usize) -> bool {
+    i == 0 || !wch(s[i - 1])
+}
+fn q_here(s: &[char], i: usize) -> bool {
+    start_ok(s, i) && (q_plural(s, i) || q_apos(s, i) || q_hex(s, i))
+}
 fn ctx_ok3(s: &[char]) -> bool {
-    (0..s.len()).all(|i| !(q_plural(s, i) || q_apos(s, i) || q_hex(s, i)))
+    (0..s.len()).all(|i| !q_here(s, i))
 }
 fn alnum_text(s: &[char]) -> bool {
     s.iter().all(|c| char3(*c)) && ctx_ok3(s)
 }
 /// which pattern excludes a text of class characters (for the input distribution)
 fn alnum_pattern(s: &[char]) -> &'static str {
-    if (0..s.len()).any(|i| q_hex(s, i)) {
+    if (0..s.len()).any(|i| start_ok(s, i) && q_hex(s, i)) {
         "Q_hex(0x+hexdigit)"
-    } else if (0..s.len()).any(|i| q_plural(s, i) && s[i].is_ascii_digit()) {
+    } else if (0..s.len()).any(|i| start_ok(s, i) && q_plural(s, i) && s[i].is_ascii_digit()) {
         "Q_plural(digit+s)"
-    } else if (0..s.len()).any(|i| q_plural(s, i)) {
+    } else if (0..s.len()).any(|i| start_ok(s, i) && q_plural(s, i)) {
         "Q_plural(letter+s+hostname=FC18c)"
     } else {
         "Q_apos(alnum+'s)"
@@ -1428,7 +1436,7 @@ fn alnum_title(r: &mut Rng, v: &Vocab) -> String {
         "1", "2nd", "3RD", "1st", "21ST", "4th", "11Th", "1.5", "1.5e3", "2E5", "1e", "1e+5", "1E-5", "3.", ".5", "0xg", "0x", "0X", "0x1f", "0X1F", "0xAb", "1990s", "1990S", "1990", "90s", "5s",
         "5S", "5's", "7'S", "3d", "3D", "mp3", "MP3s", "v1.2", "a1", "1a", "10-12", "1,000", "$5", "5%", "no.1", "1.2.3", "12e", "E5", "e5", "1e5x", "2.e3", "007", "1sa", "1's1", "x0x1",
     ];
-    const GLUE: &[&str] = &[" ", " ", " ", " ", ". ", ", ", "-", ".", "'", "'s ", "'S ", "n't ", "'re ", "'LL ", "' ", " '", "s ", "s.", "s-", "'d ", "'sa", "1", "2 "];
+    const GLUE: &[&str] = &[" ", " ", " ", " ", ". ", ", ", "-", ".", "'", "'s ", "'S ", "n't ", "'re ", "'LL ", "' ", " '", "s ", "s.", "s-", "'d ", "'sa", "1", "2 ", "", "s", "S"];
     let n = r.range(2, 6);
     let mut out = String::new();
     for i in 0..n {
